@@ -95,6 +95,13 @@ def gen_layout_schema(r, prefix="L"):
                 if r.random() < 0.2:
                     opts.append(("bitstart", r.choice([0, 3, 8, 60, 64, 100])))  # documented key; it does not move the leaf
                 items.append(("signal", f["name"], opts))
+        # blocks for scalar fields of structs NESTED in the bound struct (named by the inner field's own name)
+        for f in sdecl[st]["fields"]:
+            if f["type"][0] == "struct" and r.random() < 0.5:
+                for g in sdecl[f["type"][1]]["fields"]:
+                    if g["type"][0] in ("u", "i", "f32", "f64", "enum") and g["name"] not in blocks and r.random() < 0.5:
+                        blocks.add(g["name"])
+                        items.append(("signal", g["name"], [("endianess", ("s", r.choice(["big", "little"]))), ("scale", r.choice([0.5, 2]))]))
         r.shuffle(items)
         decls.append({"kind": "impl", "protocol": proto, "type": st, "name": rename, "items": items})
     return decls
